@@ -54,7 +54,7 @@ PROPS['C02'] = {
     'kani': [
         ('geo', 'c02.rs', r'^c02_k_(line_coord|rect_coord|tri_intersects_coord|tri_pos|tri_accumulates|line_line|rect_rect|contains_line_coord|contains_line_line|contains_rect|contains_tri_coord)$', 'complete', 'quick'),
         ('geo', 'c02.rs', r'^c02_k_rect_line$', 'complete', 'thorough'),
-        ('geo', 'c02.rs', r'^c02_k_(linestring_pos|polygon_pos|multilinestring_pos)', 'bounded', 'quick'),
+        ('geo', 'c02.rs', r'^c02_k_(linestring_pos|polygon_pos|polygon_with_hole_pos|multilinestring_pos)', 'bounded', 'quick'),
         ('geo', 'c02.rs', r'^c02_k_multipolygon_pos_finding', 'bounded', 'thorough'),
         ('geo', 'c02.rs', r'^c02_k_(ls_contains_line|ring_contains_line_rot)', 'bounded', 'thorough'),
         ('geo', 'c02.rs', r'^c02_k_ring_pos_[13]$', 'bounded', 'quick'),
@@ -66,6 +66,8 @@ PROPS['C02'] = {
         'C02.V.value_in_between': r'^c02_k_(line_coord|ring_pos)',
         'C02.V.value_in_range': r'^c02_k_(line_coord|ring_pos)',
         'C02.V.rect_position': r'^c02_k_rect_coord',
+        'C02.V.polygon_position': r'^c02_k_polygon_(with_hole_)?pos',
+        'C02.V.coordinate_position': r'^c02_k_(polygon_(with_hole_)?pos|rect_coord)',
         'C02.V.coord_position': r'^c02_k_line_coord',
         'C02.V.coord_intersects_coord': r'^c02_k_line_coord',
         'C02.V.line_intersects_coord': r'^c02_k_line_coord',
